@@ -67,12 +67,28 @@ class Mon:
         self.reach.stop()
 
     def run(self, text, vars_=None):
-        ctx = self.ctx.create_child_context()
+        # evaluation order and laziness are the same in every flavour of engine / context a host can set up
+        if not hasattr(self, 'worlds'):
+            from yaql import legacy as ylegacy
+            dctx = yaql.create_context(delegates=True).create_child_context()
+            lctx = ylegacy.create_context().create_child_context()
+            self.ticker.register(dctx)
+            self.ticker.register(lctx)
+            self.worlds = [('default', self.eng, self.ctx), ('default', self.eng, self.ctx),
+                           ('delegates', yq.engine({'yaql.limitIterators': 2000}, allow_delegates=True), dctx),
+                           ('legacy-functions', self.eng, lctx)]
+            self.turn = 0
+        self.turn += 1
+        wname, eng, base = self.worlds[self.turn % len(self.worlds)]
+        if wname == 'legacy-functions' and ('=>' in text or '{' in text or 'switch' in text or 'dict(' in text or '.len()' in text):
+            wname, eng, base = self.worlds[0]       # (`=>` builds tuples there, switch/dict/len are other functions)
+        self.rec.count('world.' + wname)
+        ctx = base.create_child_context()
         for k, v in (vars_ or {}).items():
             ctx[k] = cat.materialize(v) if isinstance(v, cat.Arg) else v
         self.ticker.reset()
         try:
-            out = ('value', self.eng(text).evaluate(context=ctx))
+            out = ('value', eng(text).evaluate(context=ctx))
         except Exception as e:
             out = ('error', type(e).__name__)
         return out, self.ticker.reset()
